@@ -23,9 +23,11 @@ ASSUMPTIONS = ['the automata in this file define "the corresponding '
                'preorder, as the pinned golden sequence shows); inorder = '
                'SHIFT / PJ-X / REDUCE; gap = stack + deque with SHIFT, GAP, '
                'R-side-X, UNARY-X, where pushing the deque back onto the stack '
-               'reverses it, as the pinned golden gap sequence requires '
-               '(Coavoux & Crabbe concatenate without reversing; noted, not '
-               'judged)']
+               'reverses it, as the pinned golden gap sequence requires; every '
+               'gap sequence is additionally replayed with the published '
+               'automaton of Coavoux & Crabbe (order kept): a disagreement is '
+               'the open known finding '
+               'C10:gap-deque-pushed-back-in-reversed-order']
 WATCHDOG = {'quick': 600, 'thorough': 3600}
 MIN = {'quick': {'distinct': 2000,
                  'hooks': {'transitions.topdown': 1500,
@@ -131,12 +133,19 @@ def replay_inorder(n, seq):
     return stack[0]
 
 
-def replay_gap(n, seq):
+def replay_gap(n, seq, standard=False):
     s, d = [], []       # top first
     nxt = 1
 
     def flush():
-        # the deque goes back onto the stack, its top first (see ASSUMPTIONS)
+        if standard:
+            # Coavoux & Crabbe: S || D, the order of the deque is kept, its
+            # top becomes the top of the stack
+            s[0:0] = d
+            del d[:]
+            return
+        # what the repository's oracle simulates (and its pinned golden
+        # sequence requires): the deque goes back top first, i.e. reversed
         while d:
             s.insert(0, d.pop(0))
     for t in seq:
@@ -243,8 +252,15 @@ def make_post(system):
             _fail(system + '-sentence', 'returned sentence %r, tokens are %r'
                   % (terminals[:6], want[:6]))
             return
+        std_ok = False
+        if system == 'gap':
+            try:
+                std = replay_gap(len(want), names, standard=True)
+                std_ok = compare(std, before, True) is None
+            except ReplayError:
+                std_ok = False
         try:
-            built = REPLAY[system](len(want), names)
+            built = std if std_ok else REPLAY[system](len(want), names)
         except ReplayError as e:
             mech = system + '-replay-stuck'
             detail = '%s | %s | tree %s' % (e, ' '.join(names),
@@ -264,6 +280,18 @@ def make_post(system):
                   % (diff, ' '.join(names), model.show(before, ''),
                      model.show(built, '')))
             return
+        if system == 'gap':
+            if std_ok:
+                Cur.ctx.stratum('gap: published automaton replays')
+            else:
+                # replays only with the reversed-deque automaton
+                Cur.ctx.stratum('gap: only the reversed-deque automaton replays')
+                _fail('gap-deque-pushed-back-in-reversed-order',
+                      'the sequence rebuilds the tree only with an automaton '
+                      'that reverses the deque when pushing it back onto the '
+                      'stack, not with the GAP automaton of Coavoux & Crabbe '
+                      '(S||D keeps the order) | %s | tree %s'
+                      % (' '.join(names), model.show(before, '')))
         ntok = len(want)
         unary = any(len(x.children) == 1 for x in before.nodes())
         if len(before.children) == 1:
@@ -434,13 +462,30 @@ def cli_case(ctx, bank, system, pos, sfmt='export'):
     # un-binarization (remove @-nodes)
     for spec, names in zip(bank, seqs):
         m = model.from_spec(spec['root'])
-        try:
-            built = REPLAY[system](len(m.toks()), names)
-        except ReplayError as e:
-            ctx.fail('C10:cli-%s-replay-stuck' % system, case, '%s | %s'
-                     % (e, ' '.join(names)))
-            continue
-        splice_at(built)
+        built = None
+        if system == 'gap':
+            # the published automaton first (see ASSUMPTIONS)
+            try:
+                cand = replay_gap(len(m.toks()), names, standard=True)
+                splice_at(cand)
+                if compare(cand, m, False) is None:
+                    built = cand
+            except ReplayError:
+                pass
+        if built is None:
+            try:
+                built = REPLAY[system](len(m.toks()), names)
+            except ReplayError as e:
+                ctx.fail('C10:cli-%s-replay-stuck' % system, case, '%s | %s'
+                         % (e, ' '.join(names)))
+                continue
+            splice_at(built)
+            if system == 'gap' and compare(built, m, False) is None:
+                ctx.fail('C10:gap-deque-pushed-back-in-reversed-order', case,
+                         'command line: the written sequence rebuilds the '
+                         'tree only with the reversed-deque automaton | %s'
+                         % ' '.join(names))
+                continue
         diff = compare(built, m, False)
         if diff:
             mech = 'C10:cli-%s-replay-differs' % system
